@@ -171,6 +171,10 @@ def gen_cases(tier, seed):
         B = 250
         for i in range(0, len(vals), B):
             cs.append({'ty': ty, 'vals': vals[i:i + B]})
+    # SINGLE cases first: cases are dealt round-robin to the worker processes, so most workers start with one and its cross-type
+    # driver runs before anything else has formatted a number in that process (state kept inside the number formatter would
+    # otherwise be saturated by the thousands of values of the integer cases)
+    cs.sort(key=lambda c_: 0 if c_['ty'] == '!' else 1)
     return cs
 
 
@@ -183,6 +187,36 @@ def run_driver(text, script, max_ticks):
     return r, None
 
 
+def cross_type_driver(vals, st, viol):
+    """SINGLE values also held in a DOUBLE variable of the same program, the DOUBLE printed first - run before anything else
+    has formatted these values in this process: the text of a number depends on its value and its type only."""
+    sub = [v for v in vals if v == v and abs(v) != float('inf')][:300]
+    if not sub:
+        return
+    data_c = '\n'.join('DATA ' + ','.join(data_text('!', v) for v in sub[i:i + 50]) for i in range(0, len(sub), 50))
+    drv_c = (f'{data_c}\nFOR zi& = 1 TO {len(sub)}\nREAD zx!\nzd# = zx!\nPRINT zd#\nPRINT zx!\nPRINT STR$(zx!)\nPRINT -zd#\nNEXT\n')
+    rc_, errc = run_driver(drv_c, {}, 120 * len(sub) + 1000)
+    if rc_ is None:
+        viol.append(V('C16:driver2c-rejected', errc, text=drv_c[:600]))
+        return
+    oc = [e[1] for e in rc_.history if e[0] == 'out']
+    for i, v in enumerate(sub):
+        x = rsingle(v)
+        if 4 * i + 3 >= len(oc):
+            viol.append(V(f'C16:driver2c-stopped:{rc_.outcome}', f'cross-type driver stopped after {len(oc)} outputs: {rc_.outcome}'))
+            break
+        st['cross_type_texts'] = st.get('cross_type_texts', 0) + 1
+        td, ts_, tstr, tneg = oc[4 * i][:-3], oc[4 * i + 1][:-3], oc[4 * i + 2][:-2], oc[4 * i + 3][:-3]
+        for sg_, ms_ in check_text(td, '#', float(x), 'PRINT (as DOUBLE, before the SINGLE)'):
+            viol.append(V(sg_ + ':cross-type', ms_))
+        for sg_, ms_ in check_text(ts_, '!', float(x), 'PRINT (as SINGLE, after the DOUBLE of the same value)'):
+            viol.append(V(sg_ + ':cross-type', ms_))
+        if tstr.strip() != ts_.strip():
+            viol.append(V('C16:str-vs-print:!', f'STR$ gives {tstr!r}, PRINT gave {ts_!r} for SINGLE {x!r}'))
+        if x != 0 and tneg.lstrip(' -') != td.lstrip(' -'):
+            viol.append(V('C16:negation-digits:#:cross-type', f'DOUBLE {float(x)!r} prints as {td!r}, its negation as {tneg!r}'))
+
+
 def run_case(case):
     ty = case['ty']
     st = {'values_checked': 0, 'text_checked': 0, 'val_roundtrips': 0, 'read_roundtrips': 0, 'input_roundtrips': 0,
@@ -193,6 +227,8 @@ def run_case(case):
     else:
         vals = case['vals']
     n = len(vals)
+    if ty == '!':
+        cross_type_driver(vals, st, viol)
     data = '\n'.join('DATA ' + ','.join(data_text(ty, v) for v in vals[i:i + 50]) for i in range(0, n, 50))
     neg = f'PRINT -zx{ty}'
     if ty == '%':
@@ -277,30 +313,6 @@ def run_case(case):
                 viol.append(V(f'C16:driver2-stopped:{r2.outcome}:{ty}', f'read-back driver stopped after {len(p2)}/{2 * m}: '
                               f'{r2.outcome} {r2.stdout[-200:]!r} {r2.crash_tb}',
                               item=items[len(p2) % m] if items else None))
-    # driver 2c (SINGLE): every value also held in a DOUBLE variable of the same program, printed first: the text of a number
-    # depends on its value *and* its type, whatever was printed before
-    if texts and ty == '!':
-        sub = texts[:300]
-        data_c = '\n'.join('DATA ' + ','.join(data_text(ty, v) for v, _, _ in sub[i:i + 50]) for i in range(0, len(sub), 50))
-        drv_c = (f'{data_c}\nFOR zi& = 1 TO {len(sub)}\nREAD zx!\nzd# = zx!\nPRINT zd#\nPRINT zx!\nPRINT STR$(zx!)\nNEXT\n')
-        rc_, errc = run_driver(drv_c, {}, 100 * len(sub) + 1000)
-        if rc_ is None:
-            viol.append(V('C16:driver2c-rejected', errc, text=drv_c[:600]))
-        else:
-            oc = [e[1] for e in rc_.history if e[0] == 'out']
-            for i, (v, x, tx) in enumerate(sub):
-                if 3 * i + 2 >= len(oc):
-                    viol.append(V(f'C16:driver2c-stopped:{rc_.outcome}', f'cross-type driver stopped after {len(oc)} outputs: {rc_.outcome}'))
-                    break
-                st['cross_type_texts'] = st.get('cross_type_texts', 0) + 1
-                td, ts_, tstr = oc[3 * i][:-3], oc[3 * i + 1][:-3], oc[3 * i + 2][:-2]
-                for sg_, ms_ in check_text(td, '#', float(x), 'PRINT (as DOUBLE, before the SINGLE)'):
-                    viol.append(V(sg_ + ':cross-type', ms_))
-                if ts_ != tx:
-                    viol.append(V('C16:text-depends-on-history:!', f'SINGLE {x!r} prints as {tx!r} on its own and as {ts_!r} after the DOUBLE '
-                                  f'of the same value was printed'))
-                if tstr.strip() != tx.strip():
-                    viol.append(V('C16:str-vs-print:!', f'STR$ gives {tstr!r}, PRINT gave {tx!r} for SINGLE {x!r} (after the DOUBLE was printed)'))
     # driver 2d: INPUT of two numbers per statement, the first response line rejected at its second field
     if texts and ty in '%&!#':
         pairs = [(texts[i], texts[i + 1]) for i in range(0, min(len(texts) - 1, 120), 2)]
